@@ -430,5 +430,5 @@ func head(xs []string) []string {
 }
 
 func TestC07(t *testing.T) {
-	drv.Main(t, drv.Driver{ID: "C07", Gen: gen07, Run: run07, CaseTimeout: 6 * time.Minute})
+	drv.Main(t, drv.Driver{ID: "C07", Gen: gen07, Run: run07, CaseTimeout: 15 * time.Minute})
 }
